@@ -29,7 +29,8 @@ var ErrCorruptPack = errors.New("corrupt table pack")
 // inside the used part of the memory area. Entries are decoded in place, so
 // an offset that fails this check makes a later read slice out of bounds.
 func (p *Pack) validate(offsetIndex *roaring64.Bitmap) error {
-	if p.Offset > p.Allocated || uint64(len(p.Memory)) > p.Offset {
+	// Encode ships exactly the used part of the table's memory.
+	if p.Offset > p.Allocated || uint64(len(p.Memory)) != p.Offset {
 		return ErrCorruptPack
 	}
 	used := p.Memory
@@ -106,7 +107,10 @@ func Decode(data []byte) (*Table, error) {
 		return nil, err
 	}
 
-	t := New(p.Allocated)
+	// The table is only read after this point. Its memory is sized by what the pack
+	// carries, not by the size the pack claims: that number comes from the network and
+	// an absurd value would make this member allocate (or fail to allocate) that much.
+	t := New(p.Offset)
 	t.offset = p.Offset
 	t.inuse = p.Inuse
 	t.garbage = p.Garbage
